@@ -3,7 +3,7 @@
    earlier data (via C01's invariant and C02's frame) are proved; `replay_needs_no_chunk` and
    `reset_loop_converges` are not yet proved and rest on the correspondence check. *)
 From Coq Require Import ZArith List.
-From BS Require Import Word BumpSpec ChunkSpec Arena ArenaInv ArenaStats ArenaMisc ArenaExt ArenaInv2.
+From BS Require Import Word BumpSpec ChunkSpec Arena ArenaInv ArenaStats ArenaMisc ArenaExt ArenaInv2 ArenaReplay.
 Import ListNotations.
 Open Scope Z_scope.
 
@@ -63,7 +63,18 @@ Theorem C03_scoped_aligned_exit_keeps_invariant :
   inv c (fst (step c (fst (step c s0 (OAlignPop false) r)) (OResetTo h cp) r')).
 Proof. exact scoped_aligned_exit_inv. Qed.
 
+(* repeating a workload of allocations after the rewind needs no new memory: the same addresses
+   come back and the base allocator is not asked for anything (it refuses every request here) *)
+Theorem C03_replay_needs_no_chunk :
+  forall c s j ch w rs Afin outs,
+  cur s = Cur j -> nth_error (chunks s) j = Some ch ->
+  allocs c s w rs = (Afin, outs) -> Forall is_inl outs ->
+  let B := do_reset_to c Afin (mkCp (Cur j) (cpos ch) (epoch s)) in
+  exists Bfin, allocs c B w [] = (Bfin, outs) /\ ledger Bfin = ledger B.
+Proof. exact replay_needs_no_chunk. Qed.
+
 Print Assumptions C03_checkpoint_records_position.
+Print Assumptions C03_replay_needs_no_chunk.
 Print Assumptions C03_try_with_err_keeps_invariant.
 Print Assumptions C03_scoped_aligned_exit_keeps_invariant.
 Print Assumptions C03_reset_to_restores.
